@@ -1,7 +1,7 @@
 """Sidecar contracts for esr/generation/generator.py."""
 import z3
 from pyvc.engine import Contract, LoopSpec
-from pyvc.values import T, VInt, VFloat, VLabel, VRef, VConc, HSeq, Label, Unsupported, fresh_name, LN
+from pyvc.values import T, VInt, VFloat, VLabel, VRef, VConc, VNone, HSeq, Label, Unsupported, fresh_name, LN
 from pyvc import models as M
 
 
@@ -478,3 +478,285 @@ def aifeyn_callsite_contract():
         return [("finite", res.is_fin())]
     return Contract("aifeyn_complexity", {"tree": T.list(T.label), "param_list": T.list(T.label)}, requires=requires, ensures=ensures,
                     returns=T.real, raises=lambda S, a, e: z3.BoolVal(False))
+
+
+# ------------------------------------------------------------ shape_to_functions: which rank rewrites which tree (C13, C01)
+def _stf_split_region(fnode):
+    """`i = utils.split_idx(...)` and the `if len(i) == 0: ... else: ...` that follows it."""
+    for k, s in enumerate(fnode.body):
+        if isinstance(s, _ast.Assign) and isinstance(s.value, _ast.Call) and getattr(s.value.func, "attr", None) == "split_idx":
+            if k + 1 < len(fnode.body) and isinstance(fnode.body[k + 1], _ast.If):
+                return [s, fnode.body[k + 1]]
+    return None
+
+
+def _stf_slice_test(fnode):
+    """the test of the `if` that guards the call of find_additional_trees inside the loops"""
+    for n in _ast.walk(fnode):
+        if isinstance(n, _ast.If) and any(isinstance(c, _ast.Call) and getattr(c.func, "id", None) == "find_additional_trees" for b in n.body for c in _ast.walk(b)) \
+                and not any(isinstance(c, (_ast.For, _ast.While)) and any(isinstance(x, _ast.If) for x in _ast.walk(c)) and False for c in n.body):
+            if any(isinstance(x, _ast.Name) and x.id == "pos" for x in _ast.walk(n.test)):
+                return n.test
+    return None
+
+
+def stf_slice_contract():
+    """Rank r rewrites exactly the trees at positions lo(r) <= pos < lo(r+1) of the shape's enumeration (lo from the contract of
+    split_idx): with the tiling lemmas every position is rewritten by exactly one rank, in rank order -- whatever the rank count,
+    including ranks that own nothing."""
+    from contracts.c_utils import split_idx_contract, lo
+    R, P = z3.Int("rank"), z3.Int("size")
+    N0, N1, N2 = z3.Ints("len_t0 len_t1 len_t2")
+
+    def mk_list(n):
+        def mk(eng, st):
+            v = eng.fresh(T.list(T.label), "t", st)
+            st.heap[v.addr].len = n
+            return v
+        return mk
+
+    def setup(eng, st, args):
+        eng.contracts["utils.split_idx"] = split_idx_contract()
+        st.env["rank"], st.env["size"] = VInt(R), VInt(P)
+        st.env["pos"] = VInt(z3.Int("pos"))
+        st.ghost["fnode"] = eng.find_function("shape_to_functions")
+
+    def requires(S, a):
+        return [("0 <= rank < size", z3.And(0 <= R, R < P)), ("tuple lists", z3.And(N0 >= 0, N1 >= 0, N2 >= 0))]
+
+    def ensures(S, a, res):
+        test = _stf_slice_test(S.st.ghost["fnode"])
+        if test is None:
+            raise Unsupported("the slice test guarding find_additional_trees was not found")
+        taken = S.eng.truth(S.eng.ev(test, S.st), S.st)
+        pos = S.var("pos").t
+        N = N0 * N1 * N2
+        return [("a tree is rewritten by this rank iff its position lies in the rank's slice [lo(r), lo(r+1)) of 0..N-1",
+                 z3.Implies(z3.And(0 <= pos, pos < N), taken == z3.And(lo(N, R, P) <= pos, pos < lo(N, R + 1, P))))]
+
+    c = Contract("shape_to_functions", {"t0": mk_list(N0), "t1": mk_list(N1), "t2": mk_list(N2)},
+                 requires=requires, ensures=ensures, setup=setup, region=_stf_split_region, raises=lambda S, a, e: z3.BoolVal(False))
+    c.region_name = "slice: which rank rewrites which tree"
+    return c
+
+
+# ------------------------------------------------------------ shape_to_functions: parameter renumbering (C01)
+def _stf_rename_region(fnode):
+    """body of the first loop of shape_to_functions whose body stores an 'a%i' label into t0[i][...]"""
+    for s in fnode.body:
+        if isinstance(s, _ast.For):
+            for n in _ast.walk(s):
+                if isinstance(n, _ast.Assign) and isinstance(n.targets[0], _ast.Subscript) and isinstance(n.targets[0].value, _ast.Subscript) and \
+                        isinstance(n.value, _ast.BinOp) and isinstance(n.value.op, _ast.Mod):
+                    return s.body
+    return None
+
+
+def stf_rename_contract():
+    """One nullary tuple t0[i] (a list `row` of labels): afterwards the k-th occurrence of 'a' (in order of position) is 'a<k>', k = 0, 1, ...,
+    every other entry is unchanged and the length is the same -- parameters are numbered in order of appearance."""
+    from pyvc.engine import LoopSpec
+    from pyvc.models import CNT, IDX, RNK, mask_array, filter_axioms, len_alias
+    NR = z3.Int("nrow")
+
+    def mk_t0(eng, st):
+        row = eng.fresh(T.list(T.label), "row", st)
+        st.heap[row.addr].len = NR
+        st.ghost["row"] = row
+        st.ghost["row0"] = st.heap[row.addr].get
+        return st.alloc(HSeq(z3.Int("len_t0"), lambda k: row, etype=T.list(T.label)))
+
+    def amask(S):
+        g0 = S.st.ghost["row0"]
+        la = S.eng.label_of("a")
+        ma = mask_array(S.eng, S.st, lambda k: g0(k).t == la)
+        filter_axioms(S.eng, ma, NR)
+        return ma
+
+    def fmt(S, j):
+        return S.eng.label_fn("fmt:a%i", z3.IntSort())(j)
+
+    def state(S, upto):
+        """row[p] = 'a<rank of p>' for the 'a' positions of rank < upto, the original entry elsewhere"""
+        ma = amask(S)
+        row = S.st.heap[S.st.ghost["row"].addr]
+        g0 = S.st.ghost["row0"]
+        p = z3.Int("p!rn")
+        return z3.And(row.len == NR, z3.ForAll([p], z3.Implies(z3.And(0 <= p, p < NR), z3.If(
+            z3.And(z3.Select(ma, p), RNK(ma, NR, p) < upto), row.get(p).t == fmt(S, RNK(ma, NR, p)), row.get(p).t == g0(p).t)),
+            patterns=[row.get(p).t] if z3.is_app(row.get(p).t) and row.get(p).t.num_args() == 1 else []))
+
+    def inv(S, st):
+        j = S.i(S.var("__i"))
+        ind = S.seq(S.var("indices"))
+        ma = amask(S)
+        q = z3.Int("q!rn")
+        return [("the entries renamed so far are exactly the first j occurrences of 'a'", state(S, j)),
+                ("indices lists the positions of 'a' in increasing order", z3.And(ind.len == CNT(ma, NR), z3.ForAll([q], z3.Implies(z3.And(0 <= q, q < ind.len), ind.get(q).t == IDX(ma, NR, q)))))]
+
+    def after_havoc(eng, st, tag):
+        # t0 is the same list of the same row objects; only the contents of the row may have changed
+        t0 = st.env["t0"]
+        rowref = st.ghost["row"]
+        st.heap[t0.addr] = HSeq(z3.Int("len_t0"), lambda k: rowref, etype=T.list(T.label))
+        nv = eng.fresh(T.list(T.label), "row!" + tag, st)
+        st.heap[rowref.addr] = st.heap[nv.addr]
+
+    def requires(S, a):
+        return [("i is a tuple index", z3.And(0 <= a["i"].t, a["i"].t < z3.Int("len_t0"))), ("row length", NR >= 0)]
+
+    def ensures(S, a, res):
+        ma = amask(S)
+        return [("the k-th 'a' of the tuple became 'a<k>' (numbered in order of appearance), everything else is unchanged", state(S, CNT(ma, NR)))]
+
+    def setup(eng, st, args):
+        pass
+
+    ls = LoopSpec(inv)
+    ls.after_havoc = after_havoc
+    c = Contract("shape_to_functions", {"t0": mk_t0, "i": T.int}, requires=requires, ensures=ensures, setup=setup, region=_stf_rename_region,
+                 raises=lambda S, a, e: z3.BoolVal(False))
+    c.region_name = "rename: parameters numbered in order of appearance"
+    c.loop_select = lambda node: ls
+    return c
+
+
+# ------------------------------------------------------------ shape_to_functions: assembling the label array of one tree (C01)
+def _stf_labels_region(fnode):
+    """The slice of shape_to_functions along the data flow of `labels`: the allocation of the label buffer, the three arity masks,
+    the conversion of the three tuple lists to arrays, and -- from the body of the innermost loop -- the statements up to and
+    including the store of the copy into all_tree.  (The statements in between are loop headers and assignments to other names;
+    that none of them assigns one of the names used here is checked as an obligation.)"""
+    names = {"labels", "m0", "m1", "m2", "t0", "t1", "t2"}
+    pre, inner = [], None
+    seen_check_tree = False
+    for s in fnode.body:
+        if isinstance(s, _ast.Assign) and isinstance(s.value, _ast.Call) and getattr(s.value.func, "id", None) == "check_tree":
+            seen_check_tree = True
+        if not seen_check_tree:
+            continue
+        if isinstance(s, _ast.Assign) and len(s.targets) == 1 and isinstance(s.targets[0], _ast.Name) and s.targets[0].id in names:
+            pre.append(s)
+        if isinstance(s, _ast.For):
+            cur = s
+            while True:
+                nxt = [b for b in cur.body if isinstance(b, _ast.For)]
+                if len(cur.body) == 1 and nxt:
+                    cur = nxt[0]
+                else:
+                    break
+            body = cur.body
+            upto = None
+            for k, b in enumerate(body):
+                if any(isinstance(n, _ast.Subscript) and isinstance(n.ctx, _ast.Store) and getattr(n.value, "id", None) == "all_tree" for n in _ast.walk(b)):
+                    upto = k
+            if upto is not None and any(getattr(getattr(b, "targets", [None])[0], "value", None) is not None and getattr(b.targets[0].value, "id", None) == "labels"
+                                        for b in body[:upto] if isinstance(b, _ast.Assign)):
+                inner = body[:upto + 1]
+                break
+    if not pre or inner is None:
+        return None
+    # frame of the skipped statements: no other statement of the function (after check_tree) assigns one of the names of the slice
+    region_ids = {id(n) for st_ in pre + inner for n in _ast.walk(st_)}
+    started = False
+    for s in fnode.body:
+        if isinstance(s, _ast.Assign) and isinstance(s.value, _ast.Call) and getattr(s.value.func, "id", None) == "check_tree":
+            started = True
+        if not started:
+            continue
+        for n in _ast.walk(s):
+            if id(n) in region_ids:
+                continue
+            if isinstance(n, _ast.Name) and isinstance(n.ctx, (_ast.Store, _ast.Del)) and n.id in names:
+                return None
+            if isinstance(n, (_ast.Subscript, _ast.Attribute)) and isinstance(n.ctx, _ast.Store):
+                b = n
+                while isinstance(b, (_ast.Subscript, _ast.Attribute)):
+                    b = b.value
+                if isinstance(b, _ast.Name) and b.id in names:
+                    return None
+    return pre + inner
+
+
+def stf_labels_contract():
+    """For loop indices (i, j, k): position p of the label array holds the label of p's arity class, taken in order:
+         labels[p] = t_c[row_c][rank of p among the positions of arity c],  c = s[p],  row_0 = i, row_1 = j, row_2 = k
+    so every position is filled, nullary/unary/binary labels sit exactly on the nodes of that arity, in order of appearance,
+    nothing is truncated by the fixed-width buffer, and the array stored in all_tree[pos] is a copy with the same contents."""
+    from pyvc.models import CNT, RNK, mask_array, filter_axioms, STRLEN, str_len, complement_lemma
+    N = z3.Int("nnodes")
+    L0, L1, L2 = z3.Ints("len_t0 len_t1 len_t2")
+
+    def mk_s(eng, st):
+        v = eng.fresh(T.arr(T.int), "s", st)
+        st.heap[v.addr].len = N
+        return v
+
+    def mk_tl(name, n):
+        def mk(eng, st):
+            v = eng.fresh(T.list(T.list(T.label)), name, st)
+            st.heap[v.addr].len = n
+            return v
+        return mk
+
+    def mk_all_tree(eng, st):
+        return st.alloc(HSeq(L0 * L1 * L2, lambda k: VNone()))
+
+    def masks(S, a):
+        sg = S.seq(a["s"]).get
+        out = []
+        for c in (0, 1, 2):
+            ma = mask_array(S.eng, S.st, lambda k, c=c: sg(k).t == c)
+            filter_axioms(S.eng, ma, N)
+            out.append(ma)
+        return out
+
+    def requires(S, a):
+        s = S.seq(a["s"])
+        k, r, c = z3.Int("k!rq"), z3.Int("r!rq"), z3.Int("c!rq")
+        ms = masks(S, a)
+        out = [("arities are 0, 1 or 2", z3.And(N >= 1, z3.ForAll([k], z3.Implies(z3.And(0 <= k, k < N), z3.And(s.get(k).t >= 0, s.get(k).t <= 2))))),
+               ("loop indices are in range", z3.And(0 <= a["i"].t, a["i"].t < L0, 0 <= a["j"].t, a["j"].t < L1, 0 <= a["k"].t, a["k"].t < L2, 0 <= a["pos"].t, a["pos"].t < L0 * L1 * L2))]
+        for cc, (nm, Ln) in enumerate((("t0", L0), ("t1", L1), ("t2", L2))):
+            o = S.seq(a[nm])
+            out.append(("every tuple of %s has one label per node of arity %d (itertools.product(..., repeat=n%d)), each of at most 100 characters" % (nm, cc, cc),
+                        z3.ForAll([r], z3.Implies(z3.And(0 <= r, r < Ln), S.seq(o.get(r)).len == CNT(ms[cc], N)))))
+            rr, qq = z3.Int("r!w%d" % cc), z3.Int("q!w%d" % cc)
+            out.append(("labels in %s have at most 100 characters (basis names; 'a<k>' for k < 10^98)" % nm,
+                        z3.ForAll([rr, qq], STRLEN(S.seq(o.get(rr)).get(qq).t) <= 100)))
+        return out
+
+    def setup(eng, st, args):
+        st.env["rank"] = VInt(z3.Int("rank"))
+        str_len(eng, eng.label_of("None"))
+
+    def ensures(S, a, res):
+        ms = masks(S, a)
+        lab = S.seq(S.var("labels"))
+        p = z3.Int(fresh_name("p!sk"))
+        s = S.seq(a["s"])
+        rows = [S.seq(S.seq(a[nm]).get(a[ix].t)) for nm, ix in (("t0", "i"), ("t1", "j"), ("t2", "k"))]
+        want = z3.If(s.get(p).t == 0, rows[0].get(RNK(ms[0], N, p)).t, z3.If(s.get(p).t == 1, rows[1].get(RNK(ms[1], N, p)).t, rows[2].get(RNK(ms[2], N, p)).t))
+        inr = z3.And(0 <= p, p < N)
+        out = [("the label array has one entry per node", lab.len == N),
+               ("position p holds the label of its arity class, in order of appearance: labels[p] = t_c[row][rank_c(p)], c = s[p]", z3.Implies(inr, lab.get(p).t == want))]
+        at = S.seq(a["all_tree"]).get(a["pos"].t)
+        if isinstance(at, VRef):
+            cp = S.seq(at)
+            out.append(("on rank 0 all_tree[pos] is a separate copy with the same contents",
+                        z3.And(z3.BoolVal(at.addr != S.var("labels").addr), cp.len == N, z3.Implies(inr, cp.get(p).t == want))))
+        else:
+            from pyvc.values import VMaybeNone
+            if isinstance(at, VMaybeNone):
+                cp = S.seq(at.val)
+                out.append(("on rank 0 all_tree[pos] is a separate copy with the same contents",
+                            z3.Implies(S.var("rank").t == 0, z3.And(z3.Not(at.isnone), cp.len == N, z3.Implies(inr, cp.get(p).t == want)))))
+            else:
+                out.append(("on rank 0 all_tree[pos] is a copy of the labels", z3.BoolVal(False)))
+        return out
+
+    c = Contract("shape_to_functions", {"s": mk_s, "t0": mk_tl("t0", L0), "t1": mk_tl("t1", L1), "t2": mk_tl("t2", L2), "i": T.int, "j": T.int, "k": T.int, "pos": T.int,
+                                        "all_tree": mk_all_tree},
+                 requires=requires, ensures=ensures, setup=setup, region=_stf_labels_region, raises=lambda S, a, e: z3.BoolVal(False))
+    c.region_name = "labels: every node gets the label of its arity class, in order"
+    return c
